@@ -135,6 +135,94 @@ def Payload.rawTrue (e : Ty) (a b : Payload) : Bool :=
 def Payload.tieFree (e : Ty) (l : List Payload) : Bool :=
   l.all fun a => l.all fun b => Payload.rawTrue e a b || Payload.hashDiffer e a b
 
+/-- `less` is a strict order on the members of `l` that orders any two different
+positions: the carrier on which sorted iteration is a function of the member set
+(decidable: it runs `less` on all pairs and triples) -/
+def strictTotalB {α : Type} (less : α → α → Bool) (l : List α) : Bool :=
+  l.all (fun a => !less a a) &&
+  l.all (fun a => l.all fun b => l.all fun c => !(less a b && less b c) || less a c) &&
+  (List.range l.length).all fun i => (List.range l.length).all fun j =>
+    i == j || (match l[i]?, l[j]? with
+      | some a, some b => less a b || less b a
+      | _, _ => true)
+
+/-- …for the members of a set value under `setRules{e}.Less` -/
+def Payload.lessStrictTotal (e : Ty) (vs : List Payload) : Bool := strictTotalB (ctyLessB e) vs
+
+/-! ### values that contain sets, transliterated to set-free values
+
+`canon` replaces every set node by the LIST of its (recursively transliterated)
+members sorted by the specification of `setRules.Less` (`lessEnc`); `enc` replaces
+`set e` by `list e`.  (Why: Lemmas/d03bEnc.lean.)  The driver prints `canon` of the
+generated values; the harness builds the same value through the public API
+(`AsValueSlice` of every set) and the two must agree. -/
+namespace D03b
+open Value SetImpl
+
+/-- `setRules{e}.Less(x, y)` for a compound `e`, written for proof -/
+def compLessB (e : Ty) (x y : Payload) : Bool :=
+  if rawB e x y then false
+  else if y.isNull && !x.isNull then true
+  else if x.isNull then false
+  else if x.isKnown && !y.isKnown then true
+  else if !x.isKnown then false
+  else match hashBytesP e x, hashBytesP e y with
+    | .ok hx, .ok hy => bytesLt hx hy
+    | _, _ => false
+
+
+mutual
+/-- a well-formed type (`Ty.wf`) in which no capsule type occurs -/
+def capFree : Ty → Bool
+  | .capsule _ => false
+  | .list e | .set e | .map e => capFree e
+  | .tuple ts => capFreeL ts
+  | .object ns ts os => ns.length == ts.length && os.length == ts.length && Ty.strictAsc ns && capFreeL ts
+  | _ => true
+def capFreeL : List Ty → Bool
+  | [] => true
+  | t :: ts => capFree t && capFreeL ts
+end
+
+mutual
+/-- `set e` read as `list e`, at every depth -/
+def enc : Ty → Ty
+  | .set e => .list (enc e)
+  | .list e => .list (enc e)
+  | .map e => .map (enc e)
+  | .tuple ts => .tuple (encL ts)
+  | .object ns ts os => .object ns (encL ts) os
+  | t => t
+def encL : List Ty → List Ty
+  | [] => []
+  | t :: ts => enc t :: encL ts
+end
+
+/-- the specification of `setRules{e}.Less` on transliterated members -/
+def lessEnc (e : Ty) : Payload → Payload → Bool :=
+  if e.isPrim then primLessB e else compLessB (enc e)
+
+mutual
+/-- a set node becomes the list of its members in `Less` order -/
+def canon : Ty → Payload → Payload
+  | t, .marked m r => .marked m (canon t r)
+  | .list e, .seq vs => .seq (canonAll e vs)
+  | .tuple ts, .seq vs => .seq (canonZip ts vs)
+  | .map e, .smap ks vs => .smap ks (canonAll e vs)
+  | .object _ ts _, .smap ks vs => .smap ks (canonZip ts vs)
+  | .set e, .sset _ vs => .seq (sortStable (lessEnc e) (canonAll e vs))
+  | _, p => p
+termination_by structural _ p => p
+def canonAll : Ty → List Payload → List Payload
+  | _, [] => []
+  | e, v :: vs => canon e v :: canonAll e vs
+def canonZip : List Ty → List Payload → List Payload
+  | t :: ts, v :: vs => canon t v :: canonZip ts vs
+  | _, vs => vs
+end
+
+end D03b
+
 /-! ### capsule types -/
 
 /-- The operations of a capsule type that `Equals`, `RawEquals` and the set hash
